@@ -1,10 +1,22 @@
 -- C09: FFT, interpolation and LDE equal direct polynomial evaluation (property theorems).
--- Model: Winter/Model/Fft.lean (hand-written, tied to the code by the correspondence run of ./check C09).
--- Helper lemmas: WinterProofs/Lemmas/C09*.lean.  Spec: `dft ω n p i = evalAt n p (ω^i)` — direct evaluation
--- of the polynomial with coefficients `p` at `ω^i` (`evalAt n p x = Σ_{j<n} x^j • p j`), for coefficients in any
--- module over the (commutative) base ring: base-field elements, extension-field elements, rows `[B; N]`.
-import WinterProofs.Lemmas.C09Permute
-import WinterProofs.Lemmas.C09Dft
+--
+-- Model: Winter/Model/Fft.lean (hand-written from math/src/fft/{mod,serial,fft_inputs}.rs and
+-- prover/src/matrix/{row_matrix,segments,col_matrix}.rs; tied to the code by the correspondence run of
+-- `./check C09`).  Helper lemmas: WinterProofs/Lemmas/C09*.lean.
+--
+-- Spec: `evalAt n p x = Σ_{j<n} x^j • p j` — direct evaluation at the point `x` of the polynomial with
+-- coefficients `p 0 … p (n-1)`; `dft ω n p i = evalAt n p (ω^i)`.  Coefficients live in any module `M` over the
+-- base field `F` (a base-field element, an extension-field element — `mul_base` is the scalar action —, or a
+-- row of `N` of them), so one statement covers base fields, extensions and the column-batched variant.
+-- `fieldOps F τ A` is the base-field record of a field whose two-adic root `τ` has order `2^A` (what
+-- `StarkField` provides: `get_root_of_unity(k) = τ^(2^(A-k)) = rootK τ A k`), `modOps F M` the element record.
+-- All theorems are for every size `2^(k+1)` (no bound other than the ones the code itself has: sizes must fit
+-- `usize` for `permute_index` (≤ 2^64), `u32` for the interpolation functions (< 2^32), and the subgroup must
+-- exist: `k + 1 ≤ A`), every `MAX_LOOP`, every offset, every power-of-two blowup.
+--
+-- `vw a i` is `a[i]` (total view, only used in range).  `some _` = no panic.
+import WinterProofs.Lemmas.C09Layout
+import Mathlib.Algebra.Field.ZMod
 
 namespace WinterProofs.C09
 open Model.Fft
@@ -35,6 +47,7 @@ example : permute #[10, 11, 12, 13, 14, 15, 16, 17] = some #[10, 14, 12, 16, 11,
 
 /-! ## (b) even/odd butterfly identity -/
 
+section ring
 variable {R : Type} [CommRing R] {M : Type} [AddCommGroup M] [Module R M]
 
 /-- with `ω^m = -1`: values `i` and `i + m` of the size-`2m` transform are `E i ± ω^i • O i`, where `E`, `O`
@@ -49,10 +62,194 @@ theorem butterfly_identity (ω : R) (m : Nat) (hω : ω ^ m = -1) (p : Nat → M
 /-! ## (c) the clean recursive FFT is the DFT (bit-reversed order) for every `n = 2^k` -/
 
 /-- `fftRec` with the twiddle table `tw i = ω ^ brev (k-1) i` returns, at position `m`, the evaluation of the
-    polynomial at `ω ^ brev k m` -/
+    polynomial at `ω ^ brev k m` (over any commutative ring in which `ω^(2^(k-1)) = -1`) -/
 theorem fftRec_is_dft (k : Nat) (ω : R) (tw : Nat → R) (x : Nat → M)
     (hneg : k ≥ 1 → ω ^ 2 ^ (k - 1) = -1) (htw : TwOk tw ω k) (m : Nat) (hm : m < 2 ^ k) :
     fftRec (modOps R M) tw k x m = evalAt (2 ^ k) x (ω ^ brev k m) :=
   fftRec_eq_dft k ω tw x hneg htw m hm
+
+end ring
+
+/-! ## (h) the code-shaped in-place strided recursion equals the clean recursion -/
+
+section inplace
+variable {β α : Type} [Inhabited α] [Inhabited β]
+
+/-- `fft_in_place(values, twiddles, count, stride, offset)` on `2^(k+1)·stride` values, for EVERY level `k`,
+    EVERY `MAX_LOOP` (both recursion branches), every window `offset + count ≤ stride` and any operations:
+    no panic; every sub-sequence `c + j·stride` with `offset ≤ c < offset + count` is replaced by the clean
+    recursive transform `fftRec` of that sub-sequence; everything else is unchanged -/
+theorem fft_in_place_strided (ops : Ops β α) (maxLoop : Nat) (tw : Array β) (k fuel count stride offset : Nat)
+    (a : Array α) (hf : k + 1 ≤ fuel) (hs : 0 < stride) (hsz : a.size = 2 ^ (k + 1) * stride)
+    (hw : offset + count ≤ stride) (ho : offset < stride) (htw : 2 ^ k ≤ tw.size) :
+    ∃ b, fftInPlace ops maxLoop tw fuel count stride offset a = some b ∧ b.size = a.size ∧
+      ∀ m c, m < 2 ^ (k + 1) → c < stride →
+        vw b (c + m * stride) =
+          if offset ≤ c ∧ c < offset + count then fftRec ops (twf tw) (k + 1) (sub a c stride) m
+          else vw a (c + m * stride) :=
+  fftInPlace_spec ops maxLoop tw k fuel count stride offset a hf hs hsz hw ho htw
+
+/-- the statement asked for: `fft_in_place(values, twiddles, 1, 1, 0)` (= `FftInputs::fft_in_place`) equals
+    `fftRec` on every array of `2^(k+1)` values, whatever `MAX_LOOP` is -/
+theorem fft_in_place_eq_fftRec (ops : Ops β α) (maxLoop : Nat) (tw : Array β) (k : Nat) (a : Array α)
+    (hsz : a.size = 2 ^ (k + 1)) (htw : 2 ^ k ≤ tw.size) :
+    ∃ b, fftTop ops maxLoop tw a = some b ∧ b.size = a.size ∧
+      ∀ m, m < 2 ^ (k + 1) → vw b m = fftRec ops (twf tw) (k + 1) (vw a) m :=
+  fftTop_spec ops maxLoop tw k a hsz htw
+
+end inplace
+
+/-- TEST (not the unbounded claim, which is `fft_in_place_eq_fftRec`): kernel-evaluated instances over
+    arithmetic mod 17 with `n = 16`, twiddles `3^brev`, for `MAX_LOOP = 1` (always the two-call branch),
+    `2` (switch in the middle) and `256` (always the one-call branch) -/
+def natOps17 : Ops Nat Nat where
+  add := fun x y => (x + y) % 17
+  sub := fun x y => (x + 17 - y) % 17
+  mulBase := fun x t => (x * t) % 17
+  isZero := fun x => x == 0
+
+def tw17 : Array Nat := #[1, 13, 9, 15, 3, 5, 10, 11]   -- 3^brev(3,i) mod 17
+def in17 : Array Nat := #[1, 2, 3, 4, 5, 6, 7, 8, 9, 10, 11, 12, 13, 14, 15, 16]
+
+example : ∀ ml ∈ [1, 2, 4, 256],
+    fftTop natOps17 ml tw17 in17 = some (Array.ofFn (n := 16) fun i => fftRec natOps17 (twf tw17) 4 (vw in17) i) := by
+  decide +kernel
+
+/-! ## the model's entry points over a field -/
+
+section field
+variable {F : Type} [Field F] {M : Type} [AddCommGroup M] [Module F M]
+
+local instance : Inhabited M := ⟨0⟩
+local instance : Inhabited F := ⟨0⟩
+
+/-- `get_twiddles(2^(k+1))`: entry `i` is `ω ^ brev k i`, `ω` the `2^(k+1)`-th root of unity -/
+theorem get_twiddles_spec (τ : F) (A k : Nat) (hk : k + 1 ≤ A) (hk64 : k ≤ 64) :
+    ∃ tw, getTwiddles (fieldOps F τ A) (2 ^ (k + 1)) = some tw ∧ tw.size = 2 ^ k ∧
+      ∀ i, i < 2 ^ k → twf tw i = rootK τ A (k + 1) ^ brev k i :=
+  getTwiddles_spec τ A k hk hk64
+
+/-- `get_inv_twiddles(2^(k+1))`: entry `i` is `ω⁻¹ ^ brev k i` -/
+theorem get_inv_twiddles_spec (τ : F) (A k : Nat) (hτ : IsPrimitiveRoot τ (2 ^ A)) (hk : k + 1 ≤ A)
+    (hk32 : k + 1 ≤ 31) :
+    ∃ tw, getInvTwiddles (fieldOps F τ A) (2 ^ (k + 1)) = some tw ∧ tw.size = 2 ^ k ∧
+      ∀ i, i < 2 ^ k → twf tw i = (rootK τ A (k + 1))⁻¹ ^ brev k i :=
+  getInvTwiddles_spec τ A k hτ hk hk32
+
+/-- `evaluate_poly`: value `i` of the result is the direct evaluation at `ω^i`, natural order -/
+theorem evaluate_poly_is_direct_evaluation (τ : F) (A k : Nat) (hτ : IsPrimitiveRoot τ (2 ^ A)) (hk : k + 1 ≤ A)
+    (hk64 : k + 1 ≤ 64) (maxLoop : Nat) (p : Array M) (hp : p.size = 2 ^ (k + 1)) (tw : Array F)
+    (htw : getTwiddles (fieldOps F τ A) (2 ^ (k + 1)) = some tw) :
+    ∃ r, evaluatePoly (modOps F M) (fieldOps F τ A) maxLoop p tw = some r ∧ r.size = 2 ^ (k + 1) ∧
+      ∀ i, i < 2 ^ (k + 1) → vw r i = evalAt (2 ^ (k + 1)) (vw p) (rootK τ A (k + 1) ^ i) :=
+  evaluatePoly_spec τ A k hτ hk hk64 maxLoop p hp tw htw
+
+/-! ## (d) coset evaluation by chunks = direct evaluation over the blown-up domain -/
+
+/-- `evaluate_poly_with_offset` with blowup `2^b` (every power of two, `b = 0` included) and any non-zero
+    offset: value `q` is the direct evaluation at `off · g^q`, `g` the `2^(k+1+b)`-th root of unity -/
+theorem evaluate_poly_with_offset_is_direct_evaluation (τ : F) (A k b : Nat) (hτ : IsPrimitiveRoot τ (2 ^ A))
+    (hk : k + 1 + b ≤ A) (hk64 : k + 1 + b ≤ 64) (maxLoop : Nat) (p : Array M) (hp : p.size = 2 ^ (k + 1))
+    (tw : Array F) (htw : getTwiddles (fieldOps F τ A) (2 ^ (k + 1)) = some tw) (off : F) (hoff : off ≠ 0) :
+    ∃ r, evaluatePolyWithOffset (modOps F M) (fieldOps F τ A) maxLoop p tw off (2 ^ b) = some r ∧
+      r.size = 2 ^ (k + 1 + b) ∧
+      ∀ q, q < 2 ^ (k + 1 + b) → vw r q = evalAt (2 ^ (k + 1)) (vw p) (off * rootK τ A (k + 1 + b) ^ q) :=
+  evaluatePolyWithOffset_spec τ A k b hτ hk hk64 maxLoop p hp tw htw off hoff
+
+/-! ## (e) interpolation inverts evaluation -/
+
+/-- `interpolate_poly` of the evaluations of `p` over `ω^i` returns exactly the coefficients of `p` -/
+theorem interpolate_poly_inverts_evaluation (τ : F) (A k : Nat) (hτ : IsPrimitiveRoot τ (2 ^ A)) (hk : k + 1 ≤ A)
+    (hk32 : k + 1 ≤ 31) (maxLoop : Nat) (v : Array M) (hv : v.size = 2 ^ (k + 1)) (itw : Array F)
+    (hitw : getInvTwiddles (fieldOps F τ A) (2 ^ (k + 1)) = some itw) (p : Nat → M)
+    (hev : ∀ i, i < 2 ^ (k + 1) → vw v i = evalAt (2 ^ (k + 1)) p (rootK τ A (k + 1) ^ i)) :
+    ∃ r, interpolatePoly (modOps F M) (fieldOps F τ A) maxLoop v itw = some r ∧ r.size = 2 ^ (k + 1) ∧
+      ∀ l, l < 2 ^ (k + 1) → vw r l = p l :=
+  interpolatePoly_of_evals τ A k hτ hk hk32 maxLoop v hv itw hitw p hev
+
+/-- `interpolate_poly` of ARBITRARY values returns the coefficients of a polynomial (of degree `< n`) that
+    passes through them: evaluating the result at `ω^i` gives value `i` back (uniqueness is the previous
+    theorem) -/
+theorem interpolate_poly_passes_through (τ : F) (A k : Nat) (hτ : IsPrimitiveRoot τ (2 ^ A)) (hk : k + 1 ≤ A)
+    (hk32 : k + 1 ≤ 31) (maxLoop : Nat) (v : Array M) (hv : v.size = 2 ^ (k + 1)) (itw : Array F)
+    (hitw : getInvTwiddles (fieldOps F τ A) (2 ^ (k + 1)) = some itw) :
+    ∃ r, interpolatePoly (modOps F M) (fieldOps F τ A) maxLoop v itw = some r ∧ r.size = 2 ^ (k + 1) ∧
+      ∀ i, i < 2 ^ (k + 1) → evalAt (2 ^ (k + 1)) (vw r) (rootK τ A (k + 1) ^ i) = vw v i :=
+  interpolatePoly_through τ A k hτ hk hk32 maxLoop v hv itw hitw
+
+/-- `interpolate_poly_with_offset` of the evaluations of `p` over the coset `off · ω^i` returns `p` -/
+theorem interpolate_poly_with_offset_inverts_evaluation (τ : F) (A k : Nat) (hτ : IsPrimitiveRoot τ (2 ^ A))
+    (hk : k + 1 ≤ A) (hk32 : k + 1 ≤ 31) (maxLoop : Nat) (v : Array M) (hv : v.size = 2 ^ (k + 1))
+    (itw : Array F) (hitw : getInvTwiddles (fieldOps F τ A) (2 ^ (k + 1)) = some itw) (off : F) (hoff : off ≠ 0)
+    (p : Nat → M)
+    (hev : ∀ i, i < 2 ^ (k + 1) → vw v i = evalAt (2 ^ (k + 1)) p (off * rootK τ A (k + 1) ^ i)) :
+    ∃ r, interpolatePolyWithOffset (modOps F M) (fieldOps F τ A) maxLoop v itw off = some r ∧
+      r.size = 2 ^ (k + 1) ∧ ∀ l, l < 2 ^ (k + 1) → vw r l = p l :=
+  interpolatePolyWithOffset_of_evals τ A k hτ hk hk32 maxLoop v hv itw hitw off hoff p hev
+
+/-! ## (g) degree inference -/
+
+/-- `infer_degree` of the evaluations of `p` over the coset `off · ω^i` is the true degree of `p`: the index
+    `d` of its last non-zero coefficient … -/
+theorem infer_degree_is_true_degree (τ : F) (A k : Nat) (hτ : IsPrimitiveRoot τ (2 ^ A)) (hk : k + 1 ≤ A)
+    (hk32 : k + 1 ≤ 31) (maxLoop : Nat) (v : Array M) (hv : v.size = 2 ^ (k + 1)) (off : F) (hoff : off ≠ 0)
+    (p : Nat → M)
+    (hev : ∀ i, i < 2 ^ (k + 1) → vw v i = evalAt (2 ^ (k + 1)) p (off * rootK τ A (k + 1) ^ i))
+    (d : Nat) (hd : d < 2 ^ (k + 1)) (hnz : p d ≠ 0) (hz : ∀ j, d < j → j < 2 ^ (k + 1) → p j = 0) :
+    inferDegree (modOps F M) (fieldOps F τ A) maxLoop v off = some d :=
+  inferDegree_spec τ A k hτ hk hk32 maxLoop v hv off hoff p hev d hd hnz hz
+
+/-- … and 0 for the evaluations of the zero polynomial (the convention of `polynom::degree_of`) -/
+theorem infer_degree_of_zero (τ : F) (A k : Nat) (hτ : IsPrimitiveRoot τ (2 ^ A)) (hk : k + 1 ≤ A)
+    (hk32 : k + 1 ≤ 31) (maxLoop : Nat) (v : Array M) (hv : v.size = 2 ^ (k + 1)) (off : F) (hoff : off ≠ 0)
+    (hev : ∀ i, i < 2 ^ (k + 1) → vw v i = 0) :
+    inferDegree (modOps F M) (fieldOps F τ A) maxLoop v off = some 0 :=
+  inferDegree_zero τ A k hτ hk hk32 maxLoop v hv off hoff hev
+
+/-! ## (f) segment / transpose layout of the row-major LDE -/
+
+/-- `RowMatrix::evaluate_polys_over::<N>` over the domain `from_twiddles(get_twiddles(n), 2^b, off)`, `b ≥ 1`:
+    for ANY number `C ≥ 1` of base columns (1..255 and beyond, multiples of the segment width or not) and ANY
+    segment width `N ≥ 1`: no panic, the row width is `⌈C / N⌉ · N`, and cell `(row, col)` of the flat row-major
+    data is the evaluation of polynomial `col` at `off · g^row`; the padding cells `col ≥ C` are zero -/
+theorem row_matrix_cell_is_direct_evaluation (τ : F) (A k b : Nat) (hτ : IsPrimitiveRoot τ (2 ^ A))
+    (hk : k + 1 + b ≤ A) (hk64 : k + 1 + b ≤ 64) (hb : 1 ≤ b) (maxLoop N : Nat) (hN : 0 < N)
+    (polys : Array (Array F)) (hC : 0 < polys.size)
+    (hcols : ∀ j, j < polys.size → (vw polys j).size = 2 ^ (k + 1))
+    (tw : Array F) (htw : getTwiddles (fieldOps F τ A) (2 ^ (k + 1)) = some tw) (off : F) :
+    ∃ rm, evaluatePolysOver (fieldRowOps F) (fieldOps F τ A) (0 : F) maxLoop N polys (2 ^ (k + 1)) tw (2 ^ b) off
+        = some rm ∧
+      rm.rowWidth = numSegments polys.size N * N ∧ rm.elementsPerRow = polys.size ∧
+      rm.data.size = 2 ^ (k + 1 + b) * (numSegments polys.size N * N) ∧
+      ∀ row col, row < 2 ^ (k + 1 + b) → col < numSegments polys.size N * N →
+        vw rm.data (row * (numSegments polys.size N * N) + col) =
+          if col < polys.size then
+            evalAt (2 ^ (k + 1)) (colv polys col) (off * rootK τ A (k + 1 + b) ^ row)
+          else 0 :=
+  evaluatePolysOver_spec τ A k b hτ hk hk64 hb maxLoop N hN polys hC hcols tw htw off
+
+end field
+
+/-! ## the hypotheses are satisfiable: a concrete field with a two-adic root -/
+
+instance fact_prime_17 : Fact (Nat.Prime 17) := ⟨by decide⟩
+
+/-- `3` has order `16 = 2^4` in the field `ZMod 17` -/
+theorem three_primitive_mod_17 : IsPrimitiveRoot (3 : ZMod 17) (2 ^ 4) := by
+  apply IsPrimitiveRoot.mk_of_lt _ (by norm_num) (by decide)
+  intro l h0 hl
+  have hl' : l < 16 := by simpa using hl
+  interval_cases l <;> decide
+
+/-- instance of the hypotheses of the theorems above: `F = M = ZMod 17`, `τ = 3`, `A = 4`, transforms of size
+    `2^(k+1) = 4` with blowup `2^b = 4` (the LDE domain is the whole group of order 16), 3 columns, width 2 -/
+example : ∃ tw itw : Array (ZMod 17),
+    getTwiddles (fieldOps (ZMod 17) 3 4) (2 ^ (1 + 1)) = some tw ∧
+    getInvTwiddles (fieldOps (ZMod 17) 3 4) (2 ^ (1 + 1)) = some itw ∧
+    ((#[1, 2, 3, 4] : Array (ZMod 17)).size = 2 ^ (1 + 1)) ∧ (1 + 1 + 2 ≤ 4) ∧ ((5 : ZMod 17) ≠ 0) ∧
+    0 < numSegments 3 2 := by
+  obtain ⟨tw, h1, _, _⟩ := getTwiddles_spec (F := ZMod 17) 3 4 1 (by norm_num) (by norm_num)
+  obtain ⟨itw, h2, _, _⟩ := getInvTwiddles_spec (F := ZMod 17) 3 4 1 three_primitive_mod_17 (by norm_num) (by norm_num)
+  exact ⟨tw, itw, h1, h2, rfl, by norm_num, by decide, by decide⟩
 
 end WinterProofs.C09
